@@ -105,7 +105,7 @@ func genWriterFaults(r *core.Rand, cfg *wCfg, slow bool) {
 }
 
 func runC01(c *core.Ctx) {
-	c.CasesPar("writer", c.N(1500, 40000), 4, func(k *core.Case) {
+	c.CasesPar("writer", c.N(1500, 110000), 4, func(k *core.Case) {
 		r := k.R
 		cfg := genWriterCfg(r, "")
 		slow := r.Chance(1, 25)
